@@ -96,6 +96,11 @@ func (c *ClusterNode) RPCSendShard(args *RPCSendShardRequest, reply *RPCSendShar
 	}
 	// ---------------------------
 	shardPath := filepath.Join(c.cfg.ShardManager.RootDir, USERCOLSDIR, args.UserId, args.CollectionId, args.ShardId, "sharddb.bbolt")
+	// The chunks are collected under a temporary name and only the complete file
+	// takes the place of the shard file. Otherwise an interrupted transfer leaves
+	// a partial file that looks like a shard: a later sync would send it on as
+	// one, and a copy we already hold would be destroyed by the first chunk.
+	incomingPath := shardPath + ".incoming"
 	if args.ChunkIndex == 0 {
 		if err := os.MkdirAll(filepath.Dir(shardPath), 0755); err != nil {
 			return fmt.Errorf("could not create shard directory: %w", err)
@@ -104,7 +109,7 @@ func (c *ClusterNode) RPCSendShard(args *RPCSendShardRequest, reply *RPCSendShar
 		// partial file left behind by an interrupted transfer would otherwise
 		// stay in front of the re-sent data and the checksum could never
 		// match again.
-		if err := os.Remove(shardPath); err != nil && !os.IsNotExist(err) {
+		if err := os.Remove(incomingPath); err != nil && !os.IsNotExist(err) {
 			return fmt.Errorf("could not remove partial shard file: %w", err)
 		}
 	}
@@ -112,7 +117,7 @@ func (c *ClusterNode) RPCSendShard(args *RPCSendShardRequest, reply *RPCSendShar
 	// Does this generate a lot of syscalls? If so, we can switch to buffered
 	// writers but we need to keep track of the file descriptor across RPC
 	// calls. Let's see if this is a problem first, we can optimize later.
-	f, err := os.OpenFile(shardPath, os.O_APPEND|os.O_CREATE|os.O_WRONLY, 0644)
+	f, err := os.OpenFile(incomingPath, os.O_APPEND|os.O_CREATE|os.O_WRONLY, 0644)
 	if err != nil {
 		return fmt.Errorf("could not open shard file: %w", err)
 	}
@@ -126,9 +131,12 @@ func (c *ClusterNode) RPCSendShard(args *RPCSendShardRequest, reply *RPCSendShar
 	// Compute final checksum
 	if args.ChunkIndex > 0 && len(args.ChunkData) == 0 {
 		f.Close()
-		checksum, err := FileHash(shardPath)
+		checksum, err := FileHash(incomingPath)
 		if err != nil {
 			return fmt.Errorf("could not compute shard checksum: %w", err)
+		}
+		if err := os.Rename(incomingPath, shardPath); err != nil {
+			return fmt.Errorf("could not move received shard file into place: %w", err)
 		}
 		reply.Checksum = checksum
 	}
